@@ -1,6 +1,7 @@
 (* ReaderFacts: lemmas about Model/Reader.v -- measure and fuel, schedule
-   independence on faultless schedules (T08), hard failures are returned
-   (T09a), Interrupted is transparent (T09b), the writer (T09c). *)
+   independence on ALL faultless schedules (T08), hard failures are returned
+   (T09a), Interrupted is transparent (T09b), errors only from the reader
+   (T01e), the writer (T09c). *)
 From RM Require Import Model.Text Model.Encoding Model.Reader.
 From RM Require Import Gen.Generated.
 Require Import Lia ZArith List ZifyBool.
@@ -122,6 +123,61 @@ Proof.
   - rewrite skipn_length. lia.
 Qed.
 
+(* ---------- list facts (stated while firstn / skipn still compute) ---------- *)
+
+Lemma firstn_split : forall (m n : nat) (l : bytes), (m <= n)%nat ->
+  firstn n l = firstn m l ++ firstn (n - m) (skipn m l).
+Proof.
+  induction m as [|m IH]; intros n l H.
+  - rewrite Nat.sub_0_r. reflexivity.
+  - destruct n as [|n]; [lia|]. destruct l as [|x t].
+    + cbn [firstn skipn app]. rewrite firstn_nil. reflexivity.
+    + cbn [firstn skipn app]. f_equal. replace (S n - S m)%nat with (n - m)%nat by lia. apply IH. lia.
+Qed.
+
+Lemma skipn_add : forall (m n : nat) (l : bytes), skipn n (skipn m l) = skipn (m + n) l.
+Proof.
+  induction m as [|m IH]; intros n l; [reflexivity|]. destruct l as [|x t].
+  - cbn [skipn Nat.add]. apply skipn_nil.
+  - cbn [skipn Nat.add]. apply IH.
+Qed.
+
+Lemma skipn_app_le : forall (k : nat) (a b : bytes), (k <= length a)%nat -> skipn k (a ++ b) = skipn k a ++ b.
+Proof. intros k a b H. rewrite skipn_app. replace (k - length a)%nat with O by lia. reflexivity. Qed.
+
+Lemma last_opt_app_cons : forall (a : bytes) y t, last_opt (a ++ y :: t) = last_opt (y :: t).
+Proof.
+  induction a as [|x a IH]; intros y t; [reflexivity|]. cbn [app].
+  destruct (a ++ y :: t) as [|z u] eqn:E.
+  - apply app_eq_nil in E. destruct E as (_ & E). discriminate.
+  - change (last_opt (x :: z :: u)) with (last_opt (z :: u)). rewrite <- E. apply IH.
+Qed.
+
+(* the test of Chain::read_until after the cursor part: a delimiter was found *)
+Lemma memchr_some_ends : forall d p i buf, memchr d p = Some i ->
+  match last_opt (buf ++ firstn (S i) p) with Some b => b =? d | None => false end = true.
+Proof.
+  induction p as [|a p IH]; intros i buf H; [discriminate|]. cbn [memchr] in H.
+  destruct (a =? d) eqn:E.
+  - inversion H; subst i. rewrite firstn_cons, firstn_O. rewrite last_opt_app_cons. cbn [last_opt]. exact E.
+  - destruct (memchr d p) as [j|] eqn:M; [|discriminate]. inversion H; subst i. rewrite firstn_cons.
+    replace (buf ++ a :: firstn (S j) p) with ((buf ++ [a]) ++ firstn (S j) p) by (rewrite <- app_assoc; reflexivity).
+    apply IH. reflexivity.
+Qed.
+
+(* ... or the cursor ran out without one *)
+Lemma memchr_none_ends : forall d p buf, memchr d p = None -> p <> [] ->
+  match last_opt (buf ++ p) with Some b => b =? d | None => false end = false.
+Proof.
+  induction p as [|a p IH]; intros buf H N; [contradiction|]. cbn [memchr] in H.
+  destruct (a =? d) eqn:E; [discriminate|].
+  destruct (memchr d p) as [j|] eqn:M; [discriminate|].
+  destruct p as [|y t].
+  - rewrite last_opt_app_cons. cbn [last_opt]. exact E.
+  - replace (buf ++ a :: y :: t) with ((buf ++ [a]) ++ y :: t) by (rewrite <- app_assoc; reflexivity).
+    apply IH; [reflexivity|discriminate].
+Qed.
+
 (* ---------- unfolding equations (one loop iteration) ---------- *)
 
 Lemma read_until_S : forall f d r buf,
@@ -155,30 +211,129 @@ Lemma read_exact_S : forall f n r acc,
 Proof. intros. cbn [read_exact]. unfold read. destruct (fill_buf r) as [[a| |k] r']; try reflexivity.
   cbn [fst snd]. destruct (firstn (S n) a); reflexivity. Qed.
 
-Lemma read_extra_S : forall f r buf,
-  read_extra (S f) r buf =
+(* the extra-byte loop of read_line on the reader alone (what the loop on the
+   Chain comes to once the cursor is used up); auxiliary, proofs only *)
+Fixpoint read_extra_r (fuel : nat) (r : reader) (buf : bytes) : io (bytes * reader) :=
+  match fuel with
+  | O => IoFuel
+  | S f =>
+      match fill_buf r with
+      | (FbBuf (byte :: _), r') => IoDone (buf ++ [byte], consume 1 r')
+      | (FbBuf [], r') => IoDone (buf, r')
+      | (FbInt, r') => read_extra_r f r' buf
+      | (FbErr k, _) => IoErr k
+      end
+  end.
+
+Lemma read_extra_r_S : forall f r buf,
+  read_extra_r (S f) r buf =
   match fill_buf r with
   | (FbBuf (byte :: _), r') => IoDone (buf ++ [byte], consume 1 r')
   | (FbBuf [], r') => IoDone (buf, r')
-  | (FbInt, r') => read_extra f r' buf
+  | (FbInt, r') => read_extra_r f r' buf
   | (FbErr k, _) => IoErr k
   end.
 Proof. reflexivity. Qed.
 
-Lemma read_bom_S : forall f r,
-  read_bom (S f) r =
-  match fill_buf r with
-  | (FbInt, r') => read_bom f r'
-  | (FbErr k, _) => IoErr k
-  | (FbBuf a, r') =>
-      if (min_bom_len <=? length a)%nat || (length a =? 0)%nat then
-        IoDone (fst (from_bom a), consume (snd (from_bom a)) r')
-      else read_bom f (consume (length a) r')
-  end.
-Proof. intros. cbn [read_bom]. destruct (fill_buf r) as [[a| |k] r']; try reflexivity.
-  destruct (from_bom a); reflexivity. Qed.
+Lemma read_bom_unfold : forall fuel r head,
+  read_bom fuel r head =
+  if (length head <? min_bom_len)%nat then
+    match fuel with
+    | O => IoFuel
+    | S f =>
+        match fill_buf r with
+        | (FbInt, r') => read_bom f r' head
+        | (FbErr k, _) => IoErr k
+        | (FbBuf a, r') =>
+            match a with
+            | [] => bom_finish head r'
+            | _ :: _ =>
+                read_bom f (consume (Nat.min (length a) (min_bom_len - length head)) r')
+                         (head ++ firstn (Nat.min (length a) (min_bom_len - length head)) a)
+            end
+        end
+    end
+  else bom_finish head r.
+Proof. destruct fuel; reflexivity. Qed.
+
+Lemma bom_finish_eq : forall head r,
+  bom_finish head r = IoDone (fst (from_bom head), skipn (snd (from_bom head)) head, r).
+Proof. intros. unfold bom_finish. destruct (from_bom head); reflexivity. Qed.
+
+(* ---------- the Chain: closed forms over the reader-level loops ---------- *)
+
+(* what a reader-level result looks like once the Chain has switched to its
+   second part *)
+Definition lift (p : bytes) (x : io (bytes * reader)) : io (bytes * chain) :=
+  io_bind x (fun '(b, r') => IoDone (b, mkChain p true r')).
+
+Lemma lift_done : forall p x b c, lift p x = IoDone (b, c) ->
+  exists r', x = IoDone (b, r') /\ c = mkChain p true r'.
+Proof. intros p [[b0 r0]|k|w|] b c H; cbn in H; try discriminate. inversion H; subst. eauto. Qed.
+
+Lemma lift_err : forall p x k, lift p x = IoErr k -> x = IoErr k.
+Proof. intros p [[b0 r0]|k0|w|] k H; cbn in H; try discriminate. inversion H; reflexivity. Qed.
+
+(* Chain::read_until: the cursor part up to the delimiter, or -- when the
+   cursor holds none -- all of it and then the reader's read_until *)
+Lemma chain_read_until_eq : forall fuel d c buf,
+  chain_read_until fuel d c buf =
+  if done_first c then lift (pending c) (read_until fuel d (second c) buf)
+  else match memchr d (pending c) with
+       | Some i => IoDone (buf ++ firstn (S i) (pending c), mkChain (skipn (S i) (pending c)) false (second c))
+       | None => lift [] (read_until fuel d (second c) (buf ++ pending c))
+       end.
+Proof.
+  intros fuel d [p dn r] buf. unfold chain_read_until, cursor_read_until, lift. cbn [pending done_first second].
+  destruct dn; [reflexivity|].
+  destruct (memchr d p) as [i|] eqn:M.
+  - rewrite (memchr_some_ends _ _ _ buf M). pose proof (memchr_some_lt _ _ _ M) as L.
+    rewrite firstn_length. replace (Nat.min (S i) (length p)) with (S i) by lia. reflexivity.
+  - destruct p as [|x t].
+    + rewrite app_nil_r. cbn [length Nat.eqb negb]. rewrite Bool.andb_false_r. reflexivity.
+    + rewrite (memchr_none_ends d (x :: t) buf M) by discriminate. reflexivity.
+Qed.
+
+Lemma read_extra_done : forall fuel p r buf,
+  read_extra fuel (mkChain p true r) buf = lift p (read_extra_r fuel r buf).
+Proof.
+  induction fuel as [|f IH]; intros p r buf; [reflexivity|].
+  cbn [read_extra read_extra_r]. unfold chain_fill_buf. cbn [done_first second pending].
+  destruct (fill_buf r) as [[a| |k] r1]; unfold lift; cbn [io_bind].
+  - destruct a; reflexivity.
+  - apply IH.
+  - reflexivity.
+Qed.
+
+(* the extra-byte loop on the Chain: the next byte of the cursor if it has
+   one, else the loop on the reader *)
+Lemma read_extra_eq : forall fuel c buf,
+  read_extra (S fuel) c buf =
+  if done_first c then lift (pending c) (read_extra_r (S fuel) (second c) buf)
+  else match pending c with
+       | x :: t => IoDone (buf ++ [x], mkChain t false (second c))
+       | [] => lift [] (read_extra_r (S fuel) (second c) buf)
+       end.
+Proof.
+  intros fuel [p dn r] buf. cbn [pending done_first second]. destruct dn; [apply read_extra_done|].
+  destruct p as [|x t]; [|reflexivity].
+  cbn [read_extra read_extra_r]. unfold chain_fill_buf. cbn [done_first second pending].
+  destruct (fill_buf r) as [[a| |k] r1]; unfold lift; cbn [io_bind].
+  - destruct a; reflexivity.
+  - apply read_extra_done.
+  - reflexivity.
+Qed.
 
 Global Opaque firstn skipn.
+
+(* all the bytes still to be read through the Chain, and its measure *)
+Definition cbytes (c : chain) : bytes :=
+  if done_first c then bytes_of (second c) else pending c ++ bytes_of (second c).
+Definition cmsr (c : chain) : nat :=
+  ((if done_first c then 0 else length (pending c)) + msr (second c))%nat.
+
+Lemma msr_le_cmsr : forall c, (msr (second c) <= cmsr c)%nat.
+Proof. intros c. unfold cmsr. lia. Qed.
 
 (* ---------- the measure never grows; a line costs at least one unit ---------- *)
 
@@ -221,12 +376,12 @@ Proof.
     + discriminate.
 Qed.
 
-Lemma read_extra_msr : forall fuel r buf buf' r',
-  read_extra fuel r buf = IoDone (buf', r') ->
+Lemma read_extra_r_msr : forall fuel r buf buf' r',
+  read_extra_r fuel r buf = IoDone (buf', r') ->
   (msr r' + length buf' <= msr r + length buf)%nat /\ (length buf <= length buf')%nat.
 Proof.
   induction fuel as [|f IH]; intros r buf buf' r' H; [discriminate|].
-  rewrite read_extra_S in H. destruct (fill_buf r) as [[a| |k] r1] eqn:Hfb.
+  rewrite read_extra_r_S in H. destruct (fill_buf r) as [[a| |k] r1] eqn:Hfb.
   - destruct (fill_buf_buf _ _ _ Hfb) as (Ba & _ & M & _ & _).
     destruct a as [|x t].
     + inversion H; subst buf' r'; clear H. lia.
@@ -235,6 +390,32 @@ Proof.
       rewrite app_length. cbn [length]. lia.
   - apply IH in H. destruct (fill_buf_int_msr _ _ Hfb). lia.
   - discriminate.
+Qed.
+
+Lemma chain_read_until_msr : forall fuel d c buf buf' c',
+  chain_read_until fuel d c buf = IoDone (buf', c') ->
+  (cmsr c' + length buf' <= cmsr c + length buf)%nat /\ (length buf <= length buf')%nat.
+Proof.
+  intros fuel d [p dn r] buf buf' c' H. rewrite chain_read_until_eq in H. cbn [done_first pending second] in H.
+  unfold cmsr. cbn [done_first pending second]. destruct dn.
+  - apply lift_done in H. destruct H as (r' & H & ->). apply read_until_msr in H. cbn [done_first second pending]. lia.
+  - destruct (memchr d p) as [i|] eqn:M.
+    + inversion H; subst buf' c'; clear H. pose proof (memchr_some_lt _ _ _ M). cbn [done_first second pending].
+      rewrite app_length, firstn_length, skipn_length. lia.
+    + apply lift_done in H. destruct H as (r' & H & ->). apply read_until_msr in H. cbn [done_first second pending].
+      rewrite app_length in H. lia.
+Qed.
+
+Lemma read_extra_msr : forall fuel c buf buf' c',
+  read_extra fuel c buf = IoDone (buf', c') ->
+  (cmsr c' + length buf' <= cmsr c + length buf)%nat /\ (length buf <= length buf')%nat.
+Proof.
+  intros [|f] [p dn r] buf buf' c' H; [discriminate|]. rewrite read_extra_eq in H.
+  cbn [done_first pending second] in H. unfold cmsr. cbn [done_first pending second]. destruct dn.
+  - apply lift_done in H. destruct H as (r' & H & ->). apply read_extra_r_msr in H. cbn [done_first second pending]. lia.
+  - destruct p as [|x t].
+    + apply lift_done in H. destruct H as (r' & H & ->). apply read_extra_r_msr in H. cbn [done_first second pending length]. lia.
+    + inversion H; subst buf' c'; clear H. cbn [done_first second pending]. rewrite app_length. cbn [length]. lia.
 Qed.
 
 Lemma from_bom_le3 : forall a, (snd (from_bom a) <= 3)%nat /\ (snd (from_bom a) <= length a)%nat.
@@ -247,17 +428,24 @@ Proof.
   - destruct (239 =? x), (187 =? y), (191 =? z), (255 =? x), (254 =? y), (254 =? x), (255 =? y); cbn; lia.
 Qed.
 
-Lemma read_bom_msr : forall fuel r e r',
-  read_bom fuel r = IoDone (e, r') -> (msr r' <= msr r)%nat.
+Lemma min_bom_len_3 : min_bom_len = 3%nat.
+Proof. reflexivity. Qed.
+
+(* read_bom moves bytes from the reader into the head, never more *)
+Lemma read_bom_msr : forall fuel r head e h r',
+  read_bom fuel r head = IoDone (e, h, r') -> (msr r' + length h <= msr r + length head)%nat.
 Proof.
-  induction fuel as [|f IH]; intros r e r' H; [discriminate|].
-  rewrite read_bom_S in H. destruct (fill_buf r) as [[a| |k] r1] eqn:Hfb.
+  induction fuel as [|f IH]; intros r head e h r' H; rewrite read_bom_unfold in H;
+    destruct (length head <? min_bom_len)%nat eqn:E;
+    try (rewrite bom_finish_eq in H; inversion H; subst; rewrite skipn_length; lia);
+    [discriminate|].
+  destruct (fill_buf r) as [[a| |k] r1] eqn:Hfb.
   - destruct (fill_buf_buf _ _ _ Hfb) as (Ba & _ & M & _ & _).
-    destruct ((min_bom_len <=? length a)%nat || (length a =? 0)%nat).
-    + inversion H; subst e r'; clear H.
-      pose proof (from_bom_le3 a) as L.
-      destruct (consume_bytes (snd (from_bom a)) r1) as (_ & _ & C); [rewrite Ba; lia|]. lia.
-    + apply IH in H. destruct (consume_bytes (length a) r1) as (_ & _ & C); [rewrite Ba; lia|]. lia.
+    destruct a as [|x t].
+    + rewrite bom_finish_eq in H. inversion H; subst. rewrite skipn_length. lia.
+    + apply IH in H. rewrite app_length, firstn_length in H.
+      destruct (consume_bytes (Nat.min (length (x :: t)) (min_bom_len - length head)) r1) as (_ & _ & C); [rewrite Ba; lia|].
+      lia.
   - apply IH in H. destruct (fill_buf_int_msr _ _ Hfb). lia.
   - discriminate.
 Qed.
@@ -332,14 +520,14 @@ Qed.
 
 (* the extra byte of a UTF-16LE line feed: the next byte of the stream if there
    is one; at the end of the stream the line is kept as it is -- no error *)
-Lemma read_extra_faultless : forall fuel r buf,
+Lemma read_extra_r_faultless : forall fuel r buf,
   faultless (sched r) -> (msr r < fuel)%nat ->
-  exists r', read_extra fuel r buf =
+  exists r', read_extra_r fuel r buf =
                IoDone (match bytes_of r with [] => buf | x :: _ => buf ++ [x] end, r') /\
              bytes_of r' = tl (bytes_of r) /\ faultless (sched r').
 Proof.
   induction fuel as [|f IH]; intros r buf F M; [lia|].
-  rewrite read_extra_S. destruct (fill_buf r) as [[a| |k] r1] eqn:Hfb.
+  rewrite read_extra_r_S. destruct (fill_buf r) as [[a| |k] r1] eqn:Hfb.
   - destruct (fill_buf_buf _ _ _ Hfb) as (Ba & Bo & M1 & F1 & E).
     assert (Hb : bytes_of r = a ++ rest r1) by (rewrite <- Bo; unfold bytes_of; rewrite Ba; reflexivity).
     destruct a as [|x t].
@@ -355,6 +543,41 @@ Proof.
   - destruct (fill_buf_err _ _ _ Hfb) as (_ & s & S). rewrite S in F. destruct (faultless_not_fail _ _ F).
 Qed.
 
+Lemma chain_read_until_faultless : forall fuel d c buf,
+  faultless (sched (second c)) -> (cmsr c < fuel)%nat ->
+  exists c', chain_read_until fuel d c buf = IoDone (buf ++ fst (split_line d (cbytes c)), c') /\
+             cbytes c' = snd (split_line d (cbytes c)) /\ faultless (sched (second c')).
+Proof.
+  intros fuel d [p dn r] buf F M. rewrite chain_read_until_eq. unfold cmsr, cbytes in *.
+  cbn [done_first pending second] in *. destruct dn.
+  - destruct (read_until_faultless fuel d r buf F) as (r' & H & Hb & Fr); [lia|].
+    rewrite H. eexists; split; [reflexivity|]. cbn [done_first second]. auto.
+  - destruct (memchr d p) as [i|] eqn:Hm.
+    + rewrite (memchr_some_split _ _ _ _ Hm). cbn [fst snd].
+      eexists; split; [reflexivity|]. cbn [done_first pending second]. auto.
+    + destruct (read_until_faultless fuel d r (buf ++ p) F) as (r' & H & Hb & Fr); [lia|].
+      rewrite H, (memchr_none_split _ _ _ Hm). cbn [fst snd lift io_bind].
+      eexists; split; [rewrite <- app_assoc; reflexivity|]. cbn [done_first second]. auto.
+Qed.
+
+(* the extra byte of a UTF-16LE line feed: the next byte of the stream if there
+   is one; at the end of the stream the line is kept as it is -- no error *)
+Lemma read_extra_faultless : forall fuel c buf,
+  faultless (sched (second c)) -> (cmsr c < fuel)%nat ->
+  exists c', read_extra fuel c buf =
+               IoDone (match cbytes c with [] => buf | x :: _ => buf ++ [x] end, c') /\
+             cbytes c' = tl (cbytes c) /\ faultless (sched (second c')).
+Proof.
+  intros [|f] [p dn r] buf F M; [lia|]. rewrite read_extra_eq. unfold cmsr, cbytes in *.
+  cbn [done_first pending second] in *. destruct dn.
+  - destruct (read_extra_r_faultless (S f) r buf F) as (r' & H & Hb & Fr); [lia|].
+    rewrite H. eexists; split; [reflexivity|]. cbn [done_first second]. auto.
+  - destruct p as [|x t].
+    + destruct (read_extra_r_faultless (S f) r buf F) as (r' & H & Hb & Fr); [cbn [length] in M; lia|].
+      rewrite H. eexists; split; [reflexivity|]. cbn [done_first second app]. auto.
+    + eexists; split; [reflexivity|]. cbn [done_first pending second app tl]. auto.
+Qed.
+
 (* from_bom looks at no more than three bytes *)
 Lemma from_bom_app : forall a m, (3 <= length a)%nat -> from_bom (a ++ m) = from_bom a.
 Proof.
@@ -362,85 +585,65 @@ Proof.
   unfold from_bom, bom_table. cbn [from_bom_tab app is_prefix]. reflexivity.
 Qed.
 
-Lemma min_bom_len_3 : min_bom_len = 3%nat.
-Proof. reflexivity. Qed.
-
-(* a stream shorter than three bytes is dropped whole, whatever the chunking *)
-Lemma read_bom_short : forall fuel r,
-  faultless (sched r) -> (msr r < fuel)%nat -> buffered r = [] -> (length (rest r) < 3)%nat ->
-  exists r', read_bom fuel r = IoDone (Utf8, r') /\ bytes_of r' = [] /\ faultless (sched r').
+(* from_bom looks at the first three bytes only *)
+Lemma from_bom_firstn3 : forall b : bytes, from_bom (firstn 3 b) = from_bom b.
 Proof.
-  induction fuel as [|f IH]; intros r F M B L; [lia|].
-  rewrite read_bom_S. destruct (fill_buf r) as [[a| |k] r1] eqn:Hfb.
-  - destruct (fill_buf_buf _ _ _ Hfb) as (Ba & Bo & M1 & F1 & E).
-    assert (Hb : rest r = a ++ rest r1).
-    { unfold bytes_of in Bo. rewrite Ba, B in Bo. cbn [app] in Bo. auto. }
-    assert (La : (length a < 3)%nat) by (rewrite Hb, app_length in L; lia).
-    rewrite min_bom_len_3.
-    destruct (3 <=? length a)%nat eqn:E3; [apply Nat.leb_le in E3; lia|]. cbn [orb].
-    destruct (length a =? 0)%nat eqn:E0.
-    + apply Nat.eqb_eq in E0. destruct a; [|discriminate]. specialize (E eq_refl).
-      eexists; split; [reflexivity|]. split; [|rewrite sched_consume; exact (faultless_sub _ _ F1 F)].
-      cbn [from_bom from_bom_tab snd]. rewrite bytes_of_consume, Ba.
-      unfold bytes_of in E. rewrite B in E. cbn [app] in E. rewrite E in Hb. cbn [app] in Hb. rewrite <- Hb. reflexivity.
-    + apply Nat.eqb_neq in E0.
-      destruct (consume_bytes (length a) r1) as (_ & Sc & C); [rewrite Ba; lia|].
-      apply IH.
-      * rewrite Sc. exact (faultless_sub _ _ F1 F).
-      * lia.
-      * unfold consume. cbn [buffered]. rewrite Ba, skipn_all. reflexivity.
-      * unfold consume. cbn [rest]. rewrite Hb, app_length in L. lia.
-  - destruct (fill_buf_int _ _ Hfb) as (_ & B' & R & S).
-    destruct (fill_buf_int_msr _ _ Hfb) as (Bo & M1).
-    rewrite S in F. apply IH; [exact (faultless_cons _ _ F)|lia|exact B'|rewrite R; exact L].
-  - destruct (fill_buf_err _ _ _ Hfb) as (_ & s & S). rewrite S in F. destruct (faultless_not_fail _ _ F).
+  intros b. destruct (Nat.ltb (length b) 3) eqn:E.
+  - apply Nat.ltb_lt in E. rewrite firstn_all2 by lia. reflexivity.
+  - apply Nat.ltb_ge in E. rewrite <- (firstn_skipn 3 b) at 2.
+    rewrite from_bom_app; [reflexivity|]. rewrite firstn_length. lia.
 Qed.
 
-Lemma fill_buf_first : forall r a r1, buffered r = [] -> fill_buf r = (FbBuf a, r1) ->
-  (sched r = [] /\ a = rest r) \/
-  (exists n s, sched r = Chunk n :: s /\ a = firstn (Pos.to_nat n) (rest r)).
+(* read_bom on a faultless schedule: the head is the first three bytes of the
+   stream (fewer if the stream is shorter), however they are chunked *)
+Lemma read_bom_faultless : forall fuel r head,
+  faultless (sched r) -> (msr r < fuel)%nat -> (length head <= 3)%nat ->
+  exists r', read_bom fuel r head = bom_finish (head ++ firstn (3 - length head) (bytes_of r)) r' /\
+             bytes_of r' = skipn (3 - length head) (bytes_of r) /\ faultless (sched r').
 Proof.
-  intros [bf rs sc] a r1 B H. cbn [buffered] in B. subst bf.
-  unfold fill_buf in H. cbn [buffered rest sched] in H.
-  destruct sc as [|[n| |k] s]; inversion H; subst; cbn [sched rest]; eauto.
-Qed.
-
-(* with a first chunk of at least three bytes the BOM is seen as in the whole stream *)
-Lemma read_bom_good : forall fuel r,
-  faultless (sched r) -> (msr r < fuel)%nat -> buffered r = [] -> (3 <= length (rest r))%nat ->
-  good_start (length (rest r)) (sched r) = true ->
-  exists r', read_bom fuel r = IoDone (fst (from_bom (rest r)), r') /\
-             bytes_of r' = skipn (snd (from_bom (rest r))) (rest r) /\ faultless (sched r').
-Proof.
-  induction fuel as [|f IH]; intros r F M B L G; [lia|].
-  rewrite read_bom_S. destruct (fill_buf r) as [[a| |k] r1] eqn:Hfb.
-  - destruct (fill_buf_buf _ _ _ Hfb) as (Ba & Bo & M1 & F1 & E).
-    assert (Hb : rest r = a ++ rest r1).
-    { unfold bytes_of in Bo. rewrite Ba, B in Bo. cbn [app] in Bo. auto. }
-    assert (La : (3 <= length a)%nat).
-    { destruct (fill_buf_first _ _ _ B Hfb) as [(S0 & A0)|(n & s & S0 & A0)].
-      - rewrite A0. exact L.
-      - rewrite S0 in G. cbn [good_start] in G. rewrite min_bom_len_3 in G. rewrite A0, firstn_length.
-        apply Bool.orb_true_iff in G. destruct G as [G|G]; apply Nat.leb_le in G; lia. }
-    rewrite min_bom_len_3.
-    destruct (3 <=? length a)%nat eqn:E3; [|apply Nat.leb_nle in E3; lia]. cbn [orb].
-    rewrite Hb, (from_bom_app _ _ La).
-    eexists; split; [reflexivity|]. split; [|rewrite sched_consume; exact (faultless_sub _ _ F1 F)].
-    rewrite bytes_of_consume, Ba. pose proof (from_bom_le3 a) as (_ & Lc).
-    rewrite skipn_app. replace (snd (from_bom a) - length a)%nat with O by lia. rewrite skipn_O. reflexivity.
-  - destruct (fill_buf_int _ _ Hfb) as (_ & B' & R & S).
-    destruct (fill_buf_int_msr _ _ Hfb) as (Bo & M1).
-    rewrite S in F, G. cbn [good_start] in G. rewrite <- R.
-    apply IH; [exact (faultless_cons _ _ F)|lia|exact B'|rewrite R; exact L|rewrite R; exact G].
-  - destruct (fill_buf_err _ _ _ Hfb) as (_ & s & S). rewrite S in F. destruct (faultless_not_fail _ _ F).
+  induction fuel as [|f IH]; intros r head F M L; [lia|].
+  rewrite read_bom_unfold, min_bom_len_3. destruct (length head <? 3)%nat eqn:E.
+  - apply Nat.ltb_lt in E. destruct (fill_buf r) as [[a| |k] r1] eqn:Hfb.
+    + destruct (fill_buf_buf _ _ _ Hfb) as (Ba & Bo & M1 & F1 & E0).
+      assert (Hb : bytes_of r = a ++ rest r1) by (rewrite <- Bo; unfold bytes_of; rewrite Ba; reflexivity).
+      pose proof (faultless_sub _ _ F1 F) as Fr1.
+      destruct a as [|x t].
+      * rewrite (E0 eq_refl). rewrite firstn_nil, skipn_nil, app_nil_r.
+        exists r1. split; [reflexivity|]. split; [|exact Fr1]. rewrite Bo. exact (E0 eq_refl).
+      * set (len := Nat.min (length (x :: t)) (3 - length head)).
+        assert (L1 : (1 <= len)%nat) by (unfold len; cbn [length]; lia).
+        assert (L2 : (len <= length (x :: t))%nat) by (unfold len; lia).
+        assert (L3 : (len <= 3 - length head)%nat) by (unfold len; lia).
+        destruct (consume_bytes len r1) as (Cb & Cs & Cm); [rewrite Ba; exact L2|].
+        destruct (IH (consume len r1) (head ++ firstn len (x :: t))) as (r' & H & Hb' & Fr').
+        { rewrite Cs. exact Fr1. }
+        { lia. }
+        { rewrite app_length, firstn_length. lia. }
+        exists r'. rewrite H, Cb, Bo in *. split; [|split; [|exact Fr']].
+        -- f_equal. rewrite <- app_assoc. f_equal. rewrite app_length, firstn_length.
+           replace (Nat.min len (length (x :: t))) with len by lia.
+           rewrite (firstn_split len (3 - length head) (bytes_of r)) by exact L3.
+           f_equal; [rewrite Hb, firstn_app; replace (len - length (x :: t))%nat with O by lia;
+                     rewrite firstn_O, app_nil_r; reflexivity|].
+           f_equal. lia.
+        -- rewrite Hb', app_length, firstn_length.
+           replace (Nat.min len (length (x :: t))) with len by lia.
+           rewrite skipn_add. f_equal. lia.
+    + destruct (fill_buf_int _ _ Hfb) as (_ & _ & _ & S).
+      destruct (fill_buf_int_msr _ _ Hfb) as (Bo & M1).
+      rewrite S in F. destruct (IH r1 head (faultless_cons _ _ F)) as (r' & H & Hb' & Fr'); [lia|exact L|].
+      exists r'. rewrite <- Bo. auto.
+    + destruct (fill_buf_err _ _ _ Hfb) as (_ & s & S). rewrite S in F. destruct (faultless_not_fail _ _ F).
+  - apply Nat.ltb_ge in E. replace (3 - length head)%nat with O by lia.
+    rewrite firstn_O, skipn_O, app_nil_r. exists r. auto.
 Qed.
 
 Lemma read_line_msr : forall fuel d l d',
-  read_line fuel d = IoDone (Some l, d') -> (msr (inner d') < msr (inner d))%nat.
+  read_line fuel d = IoDone (Some l, d') -> (cmsr (inner d') < cmsr (inner d))%nat.
 Proof.
   intros fuel d l d' H. unfold read_line in H.
-  destruct (read_until fuel LF (inner d) []) as [[buf r]| | |] eqn:Hr; try discriminate.
-  apply read_until_msr in Hr. cbn [io_bind length] in *.
+  destruct (chain_read_until fuel LF (inner d) []) as [[buf r]| | |] eqn:Hr; try discriminate.
+  apply chain_read_until_msr in Hr. cbn [io_bind length] in *.
   destruct buf as [|x t]; [discriminate|]. cbn [length] in Hr.
   destruct (enc_is_le (enc d) && ends_with_lf (x :: t)).
   - destruct (read_extra fuel r (x :: t)) as [[b r2]| | |] eqn:He; try discriminate.
@@ -462,82 +665,84 @@ Proof.
 Qed.
 
 Lemma read_line_faultless : forall fuel d,
-  faultless (sched (inner d)) -> (msr (inner d) < fuel)%nat ->
-  match next_raw (enc d) (bytes_of (inner d)) with
+  faultless (sched (second (inner d))) -> (cmsr (inner d) < fuel)%nat ->
+  match next_raw (enc d) (cbytes (inner d)) with
   | None => exists d', read_line fuel d = IoDone (None, d')
   | Some (l, rem) =>
-      exists r', read_line fuel d = IoDone (Some (trim_end (dec (enc d) l)), mkDecoder r' l (enc d)) /\
-                 bytes_of r' = rem /\ faultless (sched r')
+      exists c', read_line fuel d = IoDone (Some (trim_end (dec (enc d) l)), mkDecoder c' l (enc d)) /\
+                 cbytes c' = rem /\ faultless (sched (second c'))
   end.
 Proof.
   intros fuel d F M.
-  destruct (read_until_faultless fuel LF (inner d) [] F M) as (r1 & Hr & Hb & Fr).
-  pose proof (read_until_msr _ _ _ _ _ _ Hr) as (M1 & _).
+  destruct (chain_read_until_faultless fuel LF (inner d) [] F M) as (c1 & Hr & Hb & Fr).
+  pose proof (chain_read_until_msr _ _ _ _ _ _ Hr) as (M1 & _).
   unfold next_raw, read_line. rewrite Hr.
-  destruct (split_line LF (bytes_of (inner d))) as [l rem]. cbn [fst snd app io_bind] in *.
+  destruct (split_line LF (cbytes (inner d))) as [l rem]. cbn [fst snd app io_bind] in *.
   destruct l as [|x t].
   - eexists; reflexivity.
   - destruct (enc_is_le (enc d) && ends_with_lf (x :: t)).
-    + destruct (read_extra_faultless fuel r1 (x :: t) Fr) as (r2 & He & Hb2 & F2); [cbn [length] in M1; lia|].
+    + destruct (read_extra_faultless fuel c1 (x :: t) Fr) as (c2 & He & Hb2 & F2); [cbn [length] in M1; lia|].
       rewrite He. rewrite Hb in Hb2. rewrite Hb.
-      destruct rem as [|y rem']; cbn [io_bind tl] in *; rewrite curr_line_dec; cbn [io_bind]; exists r2; auto.
-    + cbn [io_bind]. rewrite curr_line_dec. cbn [io_bind]. exists r1. auto.
+      destruct rem as [|y rem']; cbn [io_bind tl] in *; rewrite curr_line_dec; cbn [io_bind]; exists c2; auto.
+    + cbn [io_bind]. rewrite curr_line_dec. cbn [io_bind]. exists c1. auto.
 Qed.
 
 Lemma lines_loop_faultless : forall n m fuel d,
-  faultless (sched (inner d)) -> (msr (inner d) < fuel)%nat ->
-  (length (bytes_of (inner d)) < n)%nat -> (length (bytes_of (inner d)) < m)%nat ->
-  lines_loop n fuel d = lines_pure m (enc d) (bytes_of (inner d)).
+  faultless (sched (second (inner d))) -> (cmsr (inner d) < fuel)%nat ->
+  (length (cbytes (inner d)) < n)%nat -> (length (cbytes (inner d)) < m)%nat ->
+  lines_loop n fuel d = lines_pure m (enc d) (cbytes (inner d)).
 Proof.
   induction n as [|n IH]; intros m fuel d F M Ln Lm; [lia|]. destruct m as [|m]; [lia|].
   cbn [lines_loop lines_pure]. pose proof (read_line_faultless fuel d F M) as X.
-  destruct (next_raw (enc d) (bytes_of (inner d))) as [[l rem]|] eqn:Hn.
-  - destruct X as (r' & Hl & Hb & Fr). pose proof (read_line_msr _ _ _ _ Hl) as M1. cbn [inner] in M1.
+  destruct (next_raw (enc d) (cbytes (inner d))) as [[l rem]|] eqn:Hn.
+  - destruct X as (c' & Hl & Hb & Fr). pose proof (read_line_msr _ _ _ _ Hl) as M1. cbn [inner] in M1.
     pose proof (next_raw_length _ _ _ _ Hn) as L1.
     rewrite Hl. cbn [io_bind]. rewrite decode_dec. cbn [io_of_outcome io_bind].
-    rewrite (IH m fuel (mkDecoder r' l (enc d))); cbn [inner enc]; try rewrite Hb; try assumption; try lia.
+    rewrite (IH m fuel (mkDecoder c' l (enc d))); cbn [inner enc]; try rewrite Hb; try assumption; try lia.
     reflexivity.
   - destruct X as (d' & Hl). rewrite Hl. reflexivity.
 Qed.
 
-(* T08 on the pinned tree: for every chunking whose first chunk is not shorter
-   than a BOM (and every placement of Interrupted) the lines are those of the
-   one-buffer decode *)
-Theorem read_all_lines_faultless : forall b s,
-  faultless s -> good_start (length b) s = true ->
-  read_all_lines (mk_reader b s) = decode_stream b.
+Lemma bytes_of_le_msr : forall r, (length (bytes_of r) <= msr r)%nat.
+Proof. intros r. unfold bytes_of, msr. rewrite app_length. lia. Qed.
+
+(* T08, full strength: for EVERY reader state with a faultless schedule --
+   any chunking (first chunks of one or two bytes, single-byte delivery, a BOM
+   split over several chunks), any placement of Interrupted -- the lines are
+   those the bytes alone determine *)
+Theorem read_all_lines_faultless_gen : forall r,
+  faultless (sched r) -> read_all_lines r = decode_stream (bytes_of r).
 Proof.
-  intros b s F G. unfold read_all_lines, decode_stream, decoder_new.
-  set (r := mk_reader b s). set (fuel := S (S (msr r))).
+  intros r F. unfold read_all_lines, decode_stream, decoder_new.
+  set (fuel := S (S (msr r))).
   assert (M : (msr r < fuel)%nat) by (unfold fuel; lia).
-  assert (Lb : (length b <= msr r)%nat) by (unfold r, mk_reader; rewrite msr_mk; cbn [length]; lia).
-  rewrite min_bom_len_3. destruct (length b <? 3)%nat eqn:E3.
-  - apply Nat.ltb_lt in E3.
-    destruct (read_bom_short fuel r F M eq_refl E3) as (r' & Hr & Hb & Fr).
-    pose proof (read_bom_msr _ _ _ _ Hr) as M1.
-    rewrite Hr. cbn [io_bind].
-    rewrite (lines_loop_faultless fuel 1 fuel (mkDecoder r' [] Utf8)); cbn [inner enc];
-      try rewrite Hb; cbn [length]; try assumption; try lia.
-    reflexivity.
-  - apply Nat.ltb_ge in E3.
-    destruct (read_bom_good fuel r F M eq_refl E3 G) as (r' & Hr & Hb & Fr).
-    pose proof (read_bom_msr _ _ _ _ Hr) as M1.
-    rewrite Hr. cbn [io_bind]. change (rest r) with b in *.
-    destruct (from_bom b) as [e c]. cbn [fst snd] in *.
-    assert (Lc : (length (skipn c b) <= length b)%nat) by (rewrite skipn_length; lia).
-    rewrite (lines_loop_faultless fuel (S (length b)) fuel (mkDecoder r' [] e)); cbn [inner enc];
-      try rewrite Hb; try assumption; try lia.
-    reflexivity.
+  destruct (read_bom_faultless fuel r [] F M) as (r' & Hr & Hb & Fr); [cbn [length]; lia|].
+  pose proof Hr as Hm. rewrite bom_finish_eq in Hm. apply read_bom_msr in Hm. cbn [length] in Hm.
+  rewrite Hr, bom_finish_eq. cbn [app length io_bind] in *. rewrite Nat.sub_0_r in *.
+  rewrite from_bom_firstn3 in *. pose proof (from_bom_le3 (firstn 3 (bytes_of r))) as (_ & Lc).
+  rewrite from_bom_firstn3 in Lc.
+  destruct (from_bom (bytes_of r)) as [e c]. cbn [fst snd] in *.
+  pose proof (bytes_of_le_msr r) as Lb.
+  assert (Hc : cbytes (mkChain (skipn c (firstn 3 (bytes_of r))) false r') = skipn c (bytes_of r)).
+  { unfold cbytes. cbn [done_first pending second]. rewrite Hb, <- skipn_app_le by exact Lc.
+    rewrite firstn_skipn. reflexivity. }
+  assert (Lk : (length (skipn c (bytes_of r)) <= length (bytes_of r))%nat) by (rewrite skipn_length; lia).
+  rewrite (lines_loop_faultless fuel (S (length (bytes_of r))) fuel); cbn [inner enc]; rewrite ?Hc;
+    try assumption; try lia; try reflexivity.
+  unfold cmsr. cbn [done_first pending second]. unfold fuel. lia.
 Qed.
 
-(* the statement of C08 restricted to the schedules outside the D4 class *)
+Theorem read_all_lines_faultless : forall b s,
+  faultless s -> read_all_lines (mk_reader b s) = decode_stream b.
+Proof. intros b s F. exact (read_all_lines_faultless_gen (mk_reader b s) F). Qed.
+
+(* the statement of C08: the delivery does not matter *)
 Corollary schedule_independent : forall b s1 s2,
   faultless s1 -> faultless s2 ->
-  good_start (length b) s1 = true -> good_start (length b) s2 = true ->
   read_all_lines (mk_reader b s1) = read_all_lines (mk_reader b s2).
 Proof.
-  intros b s1 s2 F1 F2 G1 G2.
-  rewrite (read_all_lines_faultless b s1 F1 G1), (read_all_lines_faultless b s2 F2 G2). reflexivity.
+  intros b s1 s2 F1 F2.
+  rewrite (read_all_lines_faultless b s1 F1), (read_all_lines_faultless b s2 F2). reflexivity.
 Qed.
 
 (* ---------- T09a: a hard failure scheduled before EOF is returned ---------- *)
@@ -588,13 +793,13 @@ Proof.
   - left. rewrite X. reflexivity.
 Qed.
 
-Lemma read_extra_will_fail : forall k fuel r buf,
+Lemma read_extra_r_will_fail : forall k fuel r buf,
   will_fail k r -> (msr r < fuel)%nat ->
-  read_extra fuel r buf = IoErr k \/
-  exists b r', read_extra fuel r buf = IoDone (b, r') /\ will_fail k r'.
+  read_extra_r fuel r buf = IoErr k \/
+  exists b r', read_extra_r fuel r buf = IoDone (b, r') /\ will_fail k r'.
 Proof.
   induction fuel as [|f IH]; intros r buf W M; [lia|].
-  rewrite read_extra_S. pose proof (fill_buf_will_fail k r W) as X.
+  rewrite read_extra_r_S. pose proof (fill_buf_will_fail k r W) as X.
   destruct (fill_buf r) as [[a| |k'] r1] eqn:Hfb.
   - destruct X as (Na & W1). destruct a as [|x t]; [contradiction|].
     right. eexists _, _. split; [reflexivity|exact W1].
@@ -602,43 +807,80 @@ Proof.
   - left. rewrite X. reflexivity.
 Qed.
 
-Lemma read_bom_will_fail : forall k fuel r,
-  will_fail k r -> (msr r < fuel)%nat ->
-  read_bom fuel r = IoErr k \/
-  exists e r', read_bom fuel r = IoDone (e, r') /\ will_fail k r'.
+Lemma chain_read_until_will_fail : forall k fuel d c buf,
+  will_fail k (second c) -> (cmsr c < fuel)%nat ->
+  chain_read_until fuel d c buf = IoErr k \/
+  exists buf' c', chain_read_until fuel d c buf = IoDone (buf', c') /\ will_fail k (second c') /\ buf' <> [].
 Proof.
-  induction fuel as [|f IH]; intros r W M; [lia|].
-  rewrite read_bom_S. pose proof (fill_buf_will_fail k r W) as X.
-  destruct (fill_buf r) as [[a| |k'] r1] eqn:Hfb.
-  - destruct X as (Na & W1). destruct (fill_buf_buf _ _ _ Hfb) as (Ba & _ & M1 & _ & _).
-    destruct ((min_bom_len <=? length a)%nat || (length a =? 0)%nat).
-    + right. eexists _, _. split; [reflexivity|exact W1].
-    + destruct a as [|x t]; [contradiction|].
-      destruct (consume_bytes (length (x :: t)) r1) as (_ & _ & C); [rewrite Ba; lia|].
+  intros k fuel d [p dn r] buf W M. rewrite chain_read_until_eq. unfold cmsr in M.
+  cbn [done_first pending second] in *. destruct dn.
+  - destruct (read_until_will_fail k fuel d r buf W) as [E|(b' & r' & E & W' & N)]; [lia| |]; rewrite E.
+    + left; reflexivity.
+    + right. eexists _, _. split; [reflexivity|]. cbn [second]. auto.
+  - destruct (memchr d p) as [i|] eqn:Hm.
+    + right. eexists _, _. split; [reflexivity|]. cbn [second]. split; [exact W|].
+      pose proof (memchr_some_lt _ _ _ Hm) as L. intros E. apply (f_equal (@length Z)) in E.
+      rewrite app_length, firstn_length in E. cbn [length] in E. lia.
+    + destruct (read_until_will_fail k fuel d r (buf ++ p) W) as [E|(b' & r' & E & W' & N)]; [lia| |]; rewrite E.
+      * left; reflexivity.
+      * right. eexists _, _. split; [reflexivity|]. cbn [second]. auto.
+Qed.
+
+Lemma read_extra_will_fail : forall k fuel c buf,
+  will_fail k (second c) -> (cmsr c < fuel)%nat ->
+  read_extra fuel c buf = IoErr k \/
+  exists b c', read_extra fuel c buf = IoDone (b, c') /\ will_fail k (second c').
+Proof.
+  intros k [|f] [p dn r] buf W M; [lia|]. rewrite read_extra_eq. unfold cmsr in M.
+  cbn [done_first pending second] in *. destruct dn.
+  - destruct (read_extra_r_will_fail k (S f) r buf W) as [E|(b' & r' & E & W')]; [lia| |]; rewrite E.
+    + left; reflexivity.
+    + right. eexists _, _. split; [reflexivity|]. exact W'.
+  - destruct p as [|x t].
+    + destruct (read_extra_r_will_fail k (S f) r buf W) as [E|(b' & r' & E & W')]; [cbn [length] in M; lia| |]; rewrite E.
+      * left; reflexivity.
+      * right. eexists _, _. split; [reflexivity|]. exact W'.
+    + right. eexists _, _. split; [reflexivity|]. exact W.
+Qed.
+
+(* a failure while read_bom is still collecting bytes is returned *)
+Lemma read_bom_will_fail : forall k fuel r head,
+  will_fail k r -> (msr r < fuel)%nat ->
+  read_bom fuel r head = IoErr k \/
+  exists e h r', read_bom fuel r head = IoDone (e, h, r') /\ will_fail k r'.
+Proof.
+  induction fuel as [|f IH]; intros r head W M; [lia|].
+  rewrite read_bom_unfold, min_bom_len_3. destruct (length head <? 3)%nat eqn:E.
+  - apply Nat.ltb_lt in E. pose proof (fill_buf_will_fail k r W) as X.
+    destruct (fill_buf r) as [[a| |k'] r1] eqn:Hfb.
+    + destruct X as (Na & W1). destruct (fill_buf_buf _ _ _ Hfb) as (Ba & _ & M1 & _ & _).
+      destruct a as [|x t]; [contradiction|].
+      destruct (consume_bytes (Nat.min (length (x :: t)) (3 - length head)) r1) as (_ & _ & C); [rewrite Ba; lia|].
       apply IH; [exact W1|cbn [length] in *; lia].
-  - destruct (fill_buf_int_msr _ _ Hfb) as (_ & M1). apply IH; [exact X|lia].
-  - left. rewrite X. reflexivity.
+    + destruct (fill_buf_int_msr _ _ Hfb) as (_ & M1). apply IH; [exact X|lia].
+    + left. rewrite X. reflexivity.
+  - right. rewrite bom_finish_eq. eexists _, _, _. split; [reflexivity|exact W].
 Qed.
 
 Lemma read_line_will_fail : forall k fuel d,
-  will_fail k (inner d) -> (msr (inner d) < fuel)%nat ->
+  will_fail k (second (inner d)) -> (cmsr (inner d) < fuel)%nat ->
   read_line fuel d = IoErr k \/
-  exists l d', read_line fuel d = IoDone (Some l, d') /\ will_fail k (inner d').
+  exists l d', read_line fuel d = IoDone (Some l, d') /\ will_fail k (second (inner d')).
 Proof.
   intros k fuel d W M. unfold read_line.
-  destruct (read_until_will_fail k fuel LF (inner d) [] W M) as [E|(buf & r1 & E & W1 & Nb)]; rewrite E.
+  destruct (chain_read_until_will_fail k fuel LF (inner d) [] W M) as [E|(buf & c1 & E & W1 & Nb)]; rewrite E.
   - left; reflexivity.
-  - pose proof (read_until_msr _ _ _ _ _ _ E) as (M1 & _). cbn [io_bind length] in *.
+  - pose proof (chain_read_until_msr _ _ _ _ _ _ E) as (M1 & _). cbn [io_bind length] in *.
     destruct buf as [|x t]; [contradiction|].
     destruct (enc_is_le (enc d) && ends_with_lf (x :: t)).
-    + destruct (read_extra_will_fail k fuel r1 (x :: t) W1) as [E2|(b & r2 & E2 & W2)]; [lia| |]; rewrite E2.
+    + destruct (read_extra_will_fail k fuel c1 (x :: t) W1) as [E2|(b & c2 & E2 & W2)]; [lia| |]; rewrite E2.
       * left; reflexivity.
       * right. cbn [io_bind]. rewrite curr_line_dec. cbn [io_bind]. eexists _, _. split; [reflexivity|exact W2].
     + right. cbn [io_bind]. rewrite curr_line_dec. cbn [io_bind]. eexists _, _. split; [reflexivity|exact W1].
 Qed.
 
 Lemma lines_loop_will_fail : forall k n fuel d,
-  will_fail k (inner d) -> (msr (inner d) < fuel)%nat -> (msr (inner d) < n)%nat ->
+  will_fail k (second (inner d)) -> (cmsr (inner d) < fuel)%nat -> (cmsr (inner d) < n)%nat ->
   lines_loop n fuel d = IoErr k.
 Proof.
   induction n as [|n IH]; intros fuel d W M Mn; [lia|].
@@ -654,10 +896,10 @@ Proof.
   intros b s k H. unfold read_all_lines, decoder_new.
   set (r := mk_reader b s). set (fuel := S (S (msr r))).
   assert (W : will_fail k r) by exact H.
-  destruct (read_bom_will_fail k fuel r W) as [E|(e & r' & E & W')]; [unfold fuel; lia| |]; rewrite E.
+  destruct (read_bom_will_fail k fuel r [] W) as [E|(e & h & r' & E & W')]; [unfold fuel; lia| |]; rewrite E.
   - reflexivity.
-  - pose proof (read_bom_msr _ _ _ _ E) as M1. cbn [io_bind].
-    apply lines_loop_will_fail; cbn [inner]; [exact W'|unfold fuel; lia|unfold fuel; lia].
+  - pose proof (read_bom_msr _ _ _ _ _ _ E) as M1. cbn [io_bind length] in *.
+    apply lines_loop_will_fail; unfold cmsr; cbn [inner done_first pending second]; [exact W'|unfold fuel; lia|unfold fuel; lia].
 Qed.
 
 (* a failure placed after exactly o <= length b delivered bytes, whatever the
@@ -705,6 +947,10 @@ Definition io_rel {A B} (R : A -> B -> Prop) (x : io A) (y : io B) : Prop :=
 
 Definition pair_sim {A} (x y : A * reader) : Prop := fst x = fst y /\ sim (snd x) (snd y).
 
+Definition csim (c1 c2 : chain) : Prop :=
+  pending c1 = pending c2 /\ done_first c1 = done_first c2 /\ sim (second c1) (second c2).
+Definition cpair_sim {A} (x y : A * chain) : Prop := fst x = fst y /\ csim (snd x) (snd y).
+
 Lemma sim_consume : forall n r1 r2, sim r1 r2 -> sim (consume n r1) (consume n r2).
 Proof. intros n r1 r2 (B & R & S). unfold sim, consume. cbn [buffered rest sched]. rewrite B. auto. Qed.
 
@@ -747,55 +993,95 @@ Proof.
   - destruct X as (r2' & Hfb2). destruct f2 as [|f2]; [lia|]. rewrite read_until_S, Hfb2. reflexivity.
 Qed.
 
-Lemma read_extra_sim : forall f1 f2 r1 r2 buf,
+Lemma read_extra_r_sim : forall f1 f2 r1 r2 buf,
   sim r1 r2 -> (msr r1 < f1)%nat -> (msr r2 < f2)%nat ->
-  io_rel pair_sim (read_extra f1 r1 buf) (read_extra f2 r2 buf).
+  io_rel pair_sim (read_extra_r f1 r1 buf) (read_extra_r f2 r2 buf).
 Proof.
   induction f1 as [|f1 IH]; intros f2 r1 r2 buf S M1 M2; [lia|].
-  rewrite read_extra_S. pose proof (fill_buf_sim r1 r2 S) as X.
+  rewrite read_extra_r_S. pose proof (fill_buf_sim r1 r2 S) as X.
   destruct (fill_buf r1) as [[a| |k] r1'] eqn:Hfb.
-  - destruct X as (r2' & Hfb2 & S'). destruct f2 as [|f2]; [lia|]. rewrite read_extra_S, Hfb2.
+  - destruct X as (r2' & Hfb2 & S'). destruct f2 as [|f2]; [lia|]. rewrite read_extra_r_S, Hfb2.
     destruct a as [|x t]; cbn [io_rel]; (split; [reflexivity|]); cbn [snd]; [exact S'|apply sim_consume; exact S'].
   - destruct (fill_buf_int_msr _ _ Hfb) as (_ & Mi). apply IH; [exact X|lia|exact M2].
-  - destruct X as (r2' & Hfb2). destruct f2 as [|f2]; [lia|]. rewrite read_extra_S, Hfb2. reflexivity.
+  - destruct X as (r2' & Hfb2). destruct f2 as [|f2]; [lia|]. rewrite read_extra_r_S, Hfb2. reflexivity.
 Qed.
 
-Lemma read_bom_sim : forall f1 f2 r1 r2,
-  sim r1 r2 -> (msr r1 < f1)%nat -> (msr r2 < f2)%nat ->
-  io_rel pair_sim (read_bom f1 r1) (read_bom f2 r2).
+Lemma lift_rel : forall p (x y : io (bytes * reader)),
+  io_rel pair_sim x y -> io_rel cpair_sim (lift p x) (lift p y).
 Proof.
-  induction f1 as [|f1 IH]; intros f2 r1 r2 S M1 M2; [lia|].
-  rewrite read_bom_S. pose proof (fill_buf_sim r1 r2 S) as X.
-  destruct (fill_buf r1) as [[a| |k] r1'] eqn:Hfb.
-  - destruct X as (r2' & Hfb2 & S'). destruct f2 as [|f2]; [lia|]. rewrite read_bom_S, Hfb2.
-    destruct (fill_buf_buf _ _ _ Hfb) as (Ba & _ & Ma & _ & _).
-    destruct (fill_buf_buf _ _ _ Hfb2) as (Ba2 & _ & Ma2 & _ & _).
-    destruct ((min_bom_len <=? length a)%nat || (length a =? 0)%nat) eqn:Hc.
-    + cbn [io_rel]. split; [reflexivity|]. cbn [snd]. apply sim_consume; exact S'.
-    + destruct a as [|x t]; [rewrite Bool.orb_true_r in Hc; discriminate|].
-      destruct (consume_bytes (length (x :: t)) r1') as (_ & _ & C1); [rewrite Ba; lia|].
-      destruct (consume_bytes (length (x :: t)) r2') as (_ & _ & C2); [rewrite Ba2; lia|].
-      apply IH; [apply sim_consume; exact S'| |]; cbn [length] in *; lia.
-  - destruct (fill_buf_int_msr _ _ Hfb) as (_ & Mi). apply IH; [exact X|lia|exact M2].
-  - destruct X as (r2' & Hfb2). destruct f2 as [|f2]; [lia|]. rewrite read_bom_S, Hfb2. reflexivity.
+  intros p [[b1 r1]|k1|w1|] [[b2 r2]|k2|w2|] H; cbn [lift io_bind io_rel] in *; try assumption.
+  destruct H as (Hb & Hs). cbn [fst snd] in *. split; [exact Hb|]. split; [reflexivity|]. split; [reflexivity|exact Hs].
+Qed.
+
+Lemma chain_read_until_sim : forall f1 f2 d c1 c2 buf,
+  csim c1 c2 -> (cmsr c1 < f1)%nat -> (cmsr c2 < f2)%nat ->
+  io_rel cpair_sim (chain_read_until f1 d c1 buf) (chain_read_until f2 d c2 buf).
+Proof.
+  intros f1 f2 d [p1 dn1 r1] [p2 dn2 r2] buf (Hp & Hd & Hs) M1 M2. unfold cmsr in *.
+  cbn [pending done_first second] in *. subst p2 dn2. rewrite !chain_read_until_eq.
+  cbn [pending done_first second]. destruct dn1.
+  - apply lift_rel. apply read_until_sim; [exact Hs|lia|lia].
+  - destruct (memchr d p1) as [i|].
+    + cbn [io_rel]. split; [reflexivity|]. split; [reflexivity|]. split; [reflexivity|exact Hs].
+    + apply lift_rel. apply read_until_sim; [exact Hs|lia|lia].
+Qed.
+
+Lemma read_extra_sim : forall f1 f2 c1 c2 buf,
+  csim c1 c2 -> (cmsr c1 < f1)%nat -> (cmsr c2 < f2)%nat ->
+  io_rel cpair_sim (read_extra f1 c1 buf) (read_extra f2 c2 buf).
+Proof.
+  intros [|f1] [|f2] [p1 dn1 r1] [p2 dn2 r2] buf (Hp & Hd & Hs) M1 M2; try lia. unfold cmsr in *.
+  cbn [pending done_first second] in *. subst p2 dn2. rewrite !read_extra_eq.
+  cbn [pending done_first second]. destruct dn1.
+  - apply lift_rel. apply read_extra_r_sim; [exact Hs|lia|lia].
+  - destruct p1 as [|x t].
+    + apply lift_rel. apply read_extra_r_sim; [exact Hs|cbn [length] in *; lia|cbn [length] in *; lia].
+    + cbn [io_rel]. split; [reflexivity|]. split; [reflexivity|]. split; [reflexivity|exact Hs].
+Qed.
+
+Definition bom_sim (x y : encoding * bytes * reader) : Prop := fst x = fst y /\ sim (snd x) (snd y).
+
+(* Interrupted while read_bom collects its bytes is retried transparently *)
+Lemma read_bom_sim : forall f1 f2 r1 r2 head,
+  sim r1 r2 -> (msr r1 < f1)%nat -> (msr r2 < f2)%nat ->
+  io_rel bom_sim (read_bom f1 r1 head) (read_bom f2 r2 head).
+Proof.
+  induction f1 as [|f1 IH]; intros f2 r1 r2 head Sm M1 M2; [lia|].
+  rewrite (read_bom_unfold (S f1) r1). destruct (length head <? min_bom_len)%nat eqn:E.
+  - pose proof (fill_buf_sim r1 r2 Sm) as X.
+    destruct (fill_buf r1) as [[a| |k] r1'] eqn:Hfb.
+    + destruct X as (r2' & Hfb2 & S'). destruct f2 as [|f2]; [lia|].
+      rewrite (read_bom_unfold (S f2) r2), E, Hfb2.
+      destruct (fill_buf_buf _ _ _ Hfb) as (Ba & _ & Ma & _ & _).
+      destruct (fill_buf_buf _ _ _ Hfb2) as (Ba2 & _ & Ma2 & _ & _).
+      destruct a as [|x t].
+      * rewrite !bom_finish_eq. cbn [io_rel]. split; [reflexivity|exact S'].
+      * rewrite min_bom_len_3 in *. apply Nat.ltb_lt in E.
+        destruct (consume_bytes (Nat.min (length (x :: t)) (3 - length head)) r1') as (_ & _ & C1); [rewrite Ba; lia|].
+        destruct (consume_bytes (Nat.min (length (x :: t)) (3 - length head)) r2') as (_ & _ & C2); [rewrite Ba2; lia|].
+        apply IH; [apply sim_consume; exact S'| |]; cbn [length] in *; lia.
+    + destruct (fill_buf_int_msr _ _ Hfb) as (_ & Mi). apply IH; [exact X|lia|exact M2].
+    + destruct X as (r2' & Hfb2). destruct f2 as [|f2]; [lia|].
+      rewrite (read_bom_unfold (S f2) r2), E, Hfb2. reflexivity.
+  - rewrite (read_bom_unfold f2 r2), E, !bom_finish_eq. cbn [io_rel]. split; [reflexivity|exact Sm].
 Qed.
 
 Definition dec_sim (x y : option str * decoder) : Prop :=
-  fst x = fst y /\ sim (inner (snd x)) (inner (snd y)) /\ enc (snd x) = enc (snd y).
+  fst x = fst y /\ csim (inner (snd x)) (inner (snd y)) /\ enc (snd x) = enc (snd y).
 
 Lemma read_line_sim : forall f1 f2 d1 d2,
-  sim (inner d1) (inner d2) -> enc d1 = enc d2 ->
-  (msr (inner d1) < f1)%nat -> (msr (inner d2) < f2)%nat ->
+  csim (inner d1) (inner d2) -> enc d1 = enc d2 ->
+  (cmsr (inner d1) < f1)%nat -> (cmsr (inner d2) < f2)%nat ->
   io_rel dec_sim (read_line f1 d1) (read_line f2 d2).
 Proof.
   intros f1 f2 d1 d2 S E M1 M2. unfold read_line. rewrite <- E.
-  pose proof (read_until_sim f1 f2 LF _ _ [] S M1 M2) as X.
-  destruct (read_until f1 LF (inner d1) []) as [[b1 r1]| | |] eqn:H1;
-    destruct (read_until f2 LF (inner d2) []) as [[b2 r2]| | |] eqn:H2; cbn [io_rel] in X; try contradiction;
+  pose proof (chain_read_until_sim f1 f2 LF _ _ [] S M1 M2) as X.
+  destruct (chain_read_until f1 LF (inner d1) []) as [[b1 r1]| | |] eqn:H1;
+    destruct (chain_read_until f2 LF (inner d2) []) as [[b2 r2]| | |] eqn:H2; cbn [io_rel] in X; try contradiction;
     try (cbn [io_bind io_rel]; assumption).
   destruct X as (Eb & S'). cbn [fst snd] in *. subst b2.
-  pose proof (read_until_msr _ _ _ _ _ _ H1) as (Ma & _).
-  pose proof (read_until_msr _ _ _ _ _ _ H2) as (Mb & _).
+  pose proof (chain_read_until_msr _ _ _ _ _ _ H1) as (Ma & _).
+  pose proof (chain_read_until_msr _ _ _ _ _ _ H2) as (Mb & _).
   cbn [io_bind]. destruct b1 as [|x t].
   - cbn [io_rel]. unfold dec_sim. cbn [fst snd inner enc]. auto.
   - destruct (enc_is_le (enc d1) && ends_with_lf (x :: t)).
@@ -809,9 +1095,9 @@ Proof.
 Qed.
 
 Lemma lines_loop_sim : forall n1 n2 f1 f2 d1 d2,
-  sim (inner d1) (inner d2) -> enc d1 = enc d2 ->
-  (msr (inner d1) < f1)%nat -> (msr (inner d2) < f2)%nat ->
-  (msr (inner d1) < n1)%nat -> (msr (inner d2) < n2)%nat ->
+  csim (inner d1) (inner d2) -> enc d1 = enc d2 ->
+  (cmsr (inner d1) < f1)%nat -> (cmsr (inner d2) < f2)%nat ->
+  (cmsr (inner d1) < n1)%nat -> (cmsr (inner d2) < n2)%nat ->
   lines_loop n1 f1 d1 = lines_loop n2 f2 d2.
 Proof.
   induction n1 as [|n1 IH]; intros n2 f1 f2 d1 d2 S E M1 M2 N1 N2; [lia|].
@@ -836,13 +1122,14 @@ Proof.
   set (r1 := mk_reader b s). set (r2 := mk_reader b (strip_interrupted s)).
   set (f1 := S (S (msr r1))). set (f2 := S (S (msr r2))).
   assert (S0 : sim r1 r2) by (repeat split).
-  pose proof (read_bom_sim f1 f2 r1 r2 S0) as X.
-  destruct (read_bom f1 r1) as [[e1 q1]| | |] eqn:H1;
-    destruct (read_bom f2 r2) as [[e2 q2]| | |] eqn:H2; cbn [io_rel] in X;
+  pose proof (read_bom_sim f1 f2 r1 r2 [] S0) as X.
+  destruct (read_bom f1 r1 []) as [[[e1 h1] q1]| | |] eqn:H1;
+    destruct (read_bom f2 r2 []) as [[[e2 h2] q2]| | |] eqn:H2; cbn [io_rel] in X;
     try (exfalso; apply X; unfold f1, f2; lia); try (cbn [io_bind]; f_equal; apply X; unfold f1, f2; lia).
-  - destruct X as (Ee & Sq); [unfold f1; lia|unfold f2; lia|]. cbn [fst snd] in *. subst e2.
-    pose proof (read_bom_msr _ _ _ _ H1). pose proof (read_bom_msr _ _ _ _ H2).
-    cbn [io_bind]. apply lines_loop_sim; cbn [inner enc]; try assumption; try reflexivity; unfold f1, f2; lia.
+  - destruct X as (Ee & Sq); [unfold f1; lia|unfold f2; lia|]. cbn [fst snd] in *. inversion Ee; subst e2 h2.
+    pose proof (read_bom_msr _ _ _ _ _ _ H1). pose proof (read_bom_msr _ _ _ _ _ _ H2).
+    cbn [io_bind length] in *.
+    apply lines_loop_sim; unfold cmsr, csim; cbn [inner enc pending done_first second]; auto; unfold f1, f2; lia.
 Qed.
 
 (* two schedules that differ only in their Interrupted events give the same outcome *)
@@ -882,31 +1169,48 @@ Proof.
   - destruct (fill_buf_int_msr _ _ Hfb) as (_ & M1). apply IH. lia.
 Qed.
 
-Lemma read_extra_ok : forall fuel r buf, (msr r < fuel)%nat -> io_ok (read_extra fuel r buf).
+Lemma read_extra_r_ok : forall fuel r buf, (msr r < fuel)%nat -> io_ok (read_extra_r fuel r buf).
 Proof.
   induction fuel as [|f IH]; intros r buf M; [lia|].
-  rewrite read_extra_S. destruct (fill_buf r) as [[a| |k] r1] eqn:Hfb; [| |exact I].
+  rewrite read_extra_r_S. destruct (fill_buf r) as [[a| |k] r1] eqn:Hfb; [| |exact I].
   - destruct a; exact I.
   - destruct (fill_buf_int_msr _ _ Hfb) as (_ & M1). apply IH. lia.
 Qed.
 
-Lemma read_bom_ok : forall fuel r, (msr r < fuel)%nat -> io_ok (read_bom fuel r).
+Lemma lift_ok : forall p x, io_ok x -> io_ok (lift p x).
+Proof. intros p [[b r]|k|w|] H; cbn in *; auto. Qed.
+
+Lemma chain_read_until_ok : forall fuel d c buf, (cmsr c < fuel)%nat -> io_ok (chain_read_until fuel d c buf).
 Proof.
-  induction fuel as [|f IH]; intros r M; [lia|].
-  rewrite read_bom_S. destruct (fill_buf r) as [[a| |k] r1] eqn:Hfb; [| |exact I].
+  intros fuel d [p dn r] buf M. rewrite chain_read_until_eq. unfold cmsr in M. cbn [pending done_first second] in *.
+  destruct dn; [apply lift_ok, read_until_ok; lia|].
+  destruct (memchr d p); [exact I|apply lift_ok, read_until_ok; lia].
+Qed.
+
+Lemma read_extra_ok : forall fuel c buf, (cmsr c < fuel)%nat -> io_ok (read_extra fuel c buf).
+Proof.
+  intros [|f] [p dn r] buf M; [lia|]. rewrite read_extra_eq. unfold cmsr in M. cbn [pending done_first second] in *.
+  destruct dn; [apply lift_ok, read_extra_r_ok; lia|].
+  destruct p; [apply lift_ok, read_extra_r_ok; cbn [length] in M; lia|exact I].
+Qed.
+
+Lemma read_bom_ok : forall fuel r head, (msr r < fuel)%nat -> io_ok (read_bom fuel r head).
+Proof.
+  induction fuel as [|f IH]; intros r head M; [lia|].
+  rewrite read_bom_unfold, min_bom_len_3. destruct (length head <? 3)%nat eqn:E; [|rewrite bom_finish_eq; exact I].
+  apply Nat.ltb_lt in E. destruct (fill_buf r) as [[a| |k] r1] eqn:Hfb; [| |exact I].
   - destruct (fill_buf_buf _ _ _ Hfb) as (Ba & _ & M1 & _ & _).
-    destruct ((min_bom_len <=? length a)%nat || (length a =? 0)%nat) eqn:Hc; [exact I|].
-    destruct a as [|x t]; [rewrite Bool.orb_true_r in Hc; discriminate|].
-    destruct (consume_bytes (length (x :: t)) r1) as (_ & _ & C); [rewrite Ba; lia|].
+    destruct a as [|x t]; [rewrite bom_finish_eq; exact I|].
+    destruct (consume_bytes (Nat.min (length (x :: t)) (3 - length head)) r1) as (_ & _ & C); [rewrite Ba; lia|].
     apply IH. cbn [length] in *. lia.
   - destruct (fill_buf_int_msr _ _ Hfb) as (_ & M1). apply IH. lia.
 Qed.
 
-Lemma read_line_ok : forall fuel d, (msr (inner d) < fuel)%nat -> io_ok (read_line fuel d).
+Lemma read_line_ok : forall fuel d, (cmsr (inner d) < fuel)%nat -> io_ok (read_line fuel d).
 Proof.
-  intros fuel d M. unfold read_line. pose proof (read_until_ok fuel LF (inner d) [] M) as X.
-  destruct (read_until fuel LF (inner d) []) as [[buf r]| | |] eqn:Hr; try contradiction; [|exact I].
-  pose proof (read_until_msr _ _ _ _ _ _ Hr) as (M1 & _). cbn [io_bind length] in *.
+  intros fuel d M. unfold read_line. pose proof (chain_read_until_ok fuel LF (inner d) [] M) as X.
+  destruct (chain_read_until fuel LF (inner d) []) as [[buf r]| | |] eqn:Hr; try contradiction; [|exact I].
+  pose proof (chain_read_until_msr _ _ _ _ _ _ Hr) as (M1 & _). cbn [io_bind length] in *.
   destruct buf as [|x t]; [exact I|].
   destruct (enc_is_le (enc d) && ends_with_lf (x :: t)).
   - pose proof (read_extra_ok fuel r (x :: t)) as Y.
@@ -916,7 +1220,7 @@ Proof.
 Qed.
 
 Lemma lines_loop_ok : forall n fuel d,
-  (msr (inner d) < fuel)%nat -> (msr (inner d) < n)%nat -> io_ok (lines_loop n fuel d).
+  (cmsr (inner d) < fuel)%nat -> (cmsr (inner d) < n)%nat -> io_ok (lines_loop n fuel d).
 Proof.
   induction n as [|n IH]; intros fuel d M N; [lia|]. cbn [lines_loop].
   pose proof (read_line_ok fuel d M) as X.
@@ -931,13 +1235,15 @@ Qed.
 Theorem read_all_lines_ok : forall r, io_ok (read_all_lines r).
 Proof.
   intros r. unfold read_all_lines, decoder_new.
-  pose proof (read_bom_ok (S (S (msr r))) r) as X.
-  destruct (read_bom (S (S (msr r))) r) as [[e r']| | |] eqn:Hb; try (apply X; lia); cbn [io_bind]; try exact I.
-  pose proof (read_bom_msr _ _ _ _ Hb). apply lines_loop_ok; cbn [inner]; lia.
+  pose proof (read_bom_ok (S (S (msr r))) r []) as X.
+  destruct (read_bom (S (S (msr r))) r []) as [[[e h] r']| | |] eqn:Hb; try (apply X; lia); cbn [io_bind]; try exact I.
+  pose proof (read_bom_msr _ _ _ _ _ _ Hb) as Mb. cbn [length] in Mb.
+  apply lines_loop_ok; unfold cmsr; cbn [inner done_first pending second]; lia.
 Qed.
 
 (* ---------- T01e: an error is one the reader reported ---------- *)
 
+(* the schedule only ever loses events *)
 (* the schedule only ever loses events *)
 Lemma fill_buf_sched : forall r x r', fill_buf r = (x, r') ->
   forall k, In (Fail k) (sched r') -> In (Fail k) (sched r).
@@ -972,52 +1278,74 @@ Proof.
   - exact (fill_buf_err_in _ _ _ Hfb).
 Qed.
 
-Lemma read_extra_from_sched : forall fuel r buf, from_sched snd r (read_extra fuel r buf).
+Lemma read_extra_r_from_sched : forall fuel r buf, from_sched snd r (read_extra_r fuel r buf).
 Proof.
   induction fuel as [|f IH]; intros r buf; [exact I|].
-  rewrite read_extra_S. destruct (fill_buf r) as [[a| |k] r1] eqn:Hfb.
+  rewrite read_extra_r_S. destruct (fill_buf r) as [[a| |k] r1] eqn:Hfb.
   - pose proof (fill_buf_sched _ _ _ Hfb) as F1. destruct a; exact F1.
   - pose proof (fill_buf_sched _ _ _ Hfb) as F1. specialize (IH r1 buf).
-    destruct (read_extra f r1 buf) as [[b r2]|k| |]; cbn [from_sched snd] in *; try exact I; auto.
+    destruct (read_extra_r f r1 buf) as [[b r2]|k| |]; cbn [from_sched snd] in *; try exact I; auto.
   - exact (fill_buf_err_in _ _ _ Hfb).
 Qed.
 
-Lemma read_bom_from_sched : forall fuel r, from_sched snd r (read_bom fuel r).
+Lemma lift_from_sched : forall p r x,
+  from_sched snd r x -> from_sched (fun y : bytes * chain => second (snd y)) r (lift p x).
+Proof. intros p r [[b r1]|k|w|] H; cbn in *; auto. Qed.
+
+Lemma chain_read_until_from_sched : forall fuel d c buf,
+  from_sched (fun y : bytes * chain => second (snd y)) (second c) (chain_read_until fuel d c buf).
 Proof.
-  induction fuel as [|f IH]; intros r; [exact I|].
-  rewrite read_bom_S. destruct (fill_buf r) as [[a| |k] r1] eqn:Hfb.
+  intros fuel d [p dn r] buf. rewrite chain_read_until_eq. cbn [pending done_first second].
+  destruct dn; [apply lift_from_sched, read_until_from_sched|].
+  destruct (memchr d p); [cbn; auto|apply lift_from_sched, read_until_from_sched].
+Qed.
+
+Lemma read_extra_from_sched : forall fuel c buf,
+  from_sched (fun y : bytes * chain => second (snd y)) (second c) (read_extra fuel c buf).
+Proof.
+  intros [|f] [p dn r] buf; [exact I|]. rewrite read_extra_eq. cbn [pending done_first second].
+  destruct dn; [apply lift_from_sched, read_extra_r_from_sched|].
+  destruct p; [apply lift_from_sched, read_extra_r_from_sched|cbn; auto].
+Qed.
+
+Lemma read_bom_from_sched : forall fuel r head, from_sched snd r (read_bom fuel r head).
+Proof.
+  induction fuel as [|f IH]; intros r head; rewrite read_bom_unfold;
+    destruct (length head <? min_bom_len)%nat; try (rewrite bom_finish_eq; cbn; auto); [exact I|].
+  destruct (fill_buf r) as [[a| |k] r1] eqn:Hfb.
   - pose proof (fill_buf_sched _ _ _ Hfb) as F1.
-    destruct ((min_bom_len <=? length a)%nat || (length a =? 0)%nat); [exact F1|].
-    specialize (IH (consume (length a) r1)).
-    destruct (read_bom f (consume (length a) r1)) as [[b r2]|k| |];
+    destruct a as [|x t]; [rewrite bom_finish_eq; exact F1|].
+    set (len := Nat.min (length (x :: t)) (min_bom_len - length head)).
+    specialize (IH (consume len r1) (head ++ firstn len (x :: t))).
+    destruct (read_bom f (consume len r1) (head ++ firstn len (x :: t))) as [[[e h] r2]|k| |];
       cbn [from_sched snd] in *; try exact I; rewrite ?sched_consume in IH; auto.
-  - pose proof (fill_buf_sched _ _ _ Hfb) as F1. specialize (IH r1).
-    destruct (read_bom f r1) as [[b r2]|k| |]; cbn [from_sched snd] in *; try exact I; auto.
+  - pose proof (fill_buf_sched _ _ _ Hfb) as F1. specialize (IH r1 head).
+    destruct (read_bom f r1 head) as [[[e h] r2]|k| |]; cbn [from_sched snd] in *; try exact I; auto.
   - exact (fill_buf_err_in _ _ _ Hfb).
 Qed.
 
 (* Decoder::read_line: an Err is a failure event of the underlying reader *)
 Lemma read_line_from_sched : forall fuel d,
-  from_sched (fun x => inner (snd x)) (inner d) (read_line fuel d).
+  from_sched (fun x => second (inner (snd x))) (second (inner d)) (read_line fuel d).
 Proof.
   intros fuel d. unfold read_line.
-  pose proof (read_until_from_sched fuel LF (inner d) []) as X.
-  destruct (read_until fuel LF (inner d) []) as [[buf r]|k| |]; cbn [io_bind from_sched snd] in *; try exact I;
+  pose proof (chain_read_until_from_sched fuel LF (inner d) []) as X.
+  destruct (chain_read_until fuel LF (inner d) []) as [[buf c]|k| |]; cbn [io_bind from_sched snd] in *; try exact I;
     [|exact X].
   destruct buf as [|x t]; [exact X|].
   destruct (enc_is_le (enc d) && ends_with_lf (x :: t)).
-  - pose proof (read_extra_from_sched fuel r (x :: t)) as Y.
-    destruct (read_extra fuel r (x :: t)) as [[b r2]|k| |]; cbn [io_bind from_sched snd] in *; try exact I; auto.
+  - pose proof (read_extra_from_sched fuel c (x :: t)) as Y.
+    destruct (read_extra fuel c (x :: t)) as [[b c2]|k| |]; cbn [io_bind from_sched snd] in *; try exact I; auto.
     rewrite curr_line_dec. cbn [io_bind from_sched snd inner]. auto.
   - cbn [io_bind]. rewrite curr_line_dec. cbn [io_bind from_sched snd inner]. exact X.
 Qed.
 
 Theorem read_line_err_from_reader : forall fuel d k,
-  read_line fuel d = IoErr k -> In (Fail k) (sched (inner d)).
+  read_line fuel d = IoErr k -> In (Fail k) (sched (second (inner d))).
 Proof. intros fuel d k H. pose proof (read_line_from_sched fuel d) as X. rewrite H in X. exact X. Qed.
 
 Lemma lines_loop_err_from_reader : forall n fuel d k,
-  lines_loop n fuel d = IoErr k -> In (Fail k) (sched (inner d)).
+  lines_loop n fuel d = IoErr k -> In (Fail k) (sched (second (inner d))).
 Proof.
   induction n as [|n IH]; intros fuel d k H; [discriminate|]. cbn [lines_loop] in H.
   pose proof (read_line_from_sched fuel d) as X.
@@ -1034,16 +1362,16 @@ Theorem read_all_lines_err_from_reader : forall r k,
   read_all_lines r = IoErr k -> In (Fail k) (sched r).
 Proof.
   intros r k H. unfold read_all_lines, decoder_new in H.
-  pose proof (read_bom_from_sched (S (S (msr r))) r) as X.
-  destruct (read_bom (S (S (msr r))) r) as [[e r']|k'| |]; cbn [io_bind from_sched snd] in *; try discriminate.
-  - apply lines_loop_err_from_reader in H. cbn [inner] in H. exact (X k H).
+  pose proof (read_bom_from_sched (S (S (msr r))) r []) as X.
+  destruct (read_bom (S (S (msr r))) r []) as [[[e h] r']|k'| |]; cbn [io_bind from_sched snd] in *; try discriminate.
+  - apply lines_loop_err_from_reader in H. cbn [inner second] in H. exact (X k H).
   - inversion H; subst k'. exact X.
 Qed.
 
-(* the positive fact behind the repair of D6: a reader that reports no
-   failure gets a list of lines, for every stream, chunking and encoding *)
+(* a reader that reports no failure gets a list of lines, for every stream,
+   chunking and encoding *)
 Theorem read_line_faultless_done : forall fuel d,
-  faultless (sched (inner d)) -> (msr (inner d) < fuel)%nat ->
+  faultless (sched (second (inner d))) -> (cmsr (inner d) < fuel)%nat ->
   exists o d', read_line fuel d = IoDone (o, d').
 Proof.
   intros fuel d F M. pose proof (read_line_ok fuel d M) as Ok.
@@ -1061,24 +1389,51 @@ Proof.
   - destruct (F k (read_all_lines_err_from_reader _ _ H)).
 Qed.
 
-(* one step of the extra-byte loop, event by event (C09 on the repaired arm):
-   Interrupted is retried, a hard failure is returned, EOF keeps the line *)
-Lemma read_extra_interrupted : forall f rs s buf,
-  read_extra (S f) (mkReader [] rs (Interrupted :: s)) buf = read_extra f (mkReader [] rs s) buf.
-Proof. reflexivity. Qed.
+(* one step of the extra-byte loop, event by event (C09): Interrupted is
+   retried, a hard failure is returned, EOF keeps the line, a byte is taken --
+   from the bytes read_bom left over first, then from the reader *)
+Lemma read_extra_interrupted : forall f dn rs s buf,
+  read_extra (S f) (mkChain [] dn (mkReader [] rs (Interrupted :: s))) buf =
+  read_extra f (mkChain [] true (mkReader [] rs s)) buf.
+Proof. intros f [|] rs s buf; reflexivity. Qed.
 
-Lemma read_extra_fail : forall f rs s buf k,
-  read_extra (S f) (mkReader [] rs (Fail k :: s)) buf = IoErr k.
-Proof. reflexivity. Qed.
+Lemma read_extra_fail : forall f dn rs s buf k,
+  read_extra (S f) (mkChain [] dn (mkReader [] rs (Fail k :: s))) buf = IoErr k.
+Proof. intros f [|] rs s buf k; reflexivity. Qed.
 
-Lemma read_extra_eof : forall f buf,
-  read_extra (S f) (mkReader [] [] []) buf = IoDone (buf, mkReader [] [] []).
-Proof. reflexivity. Qed.
+Lemma read_extra_eof : forall f dn buf,
+  read_extra (S f) (mkChain [] dn (mkReader [] [] [])) buf = IoDone (buf, mkChain [] true (mkReader [] [] [])).
+Proof. intros f [|] buf; reflexivity. Qed.
 
-Lemma read_extra_byte : forall f x bt rs s buf,
-  read_extra (S f) (mkReader (x :: bt) rs s) buf = IoDone (buf ++ [x], mkReader bt rs s).
-Proof. intros. rewrite read_extra_S. cbn [fill_buf buffered]. unfold consume. cbn [buffered rest sched].
-  rewrite skipn_cons, skipn_O. reflexivity. Qed.
+Lemma read_extra_byte : forall f dn x bt rs s buf,
+  read_extra (S f) (mkChain [] dn (mkReader (x :: bt) rs s)) buf =
+  IoDone (buf ++ [x], mkChain [] true (mkReader bt rs s)).
+Proof.
+  intros f dn x bt rs s buf. rewrite read_extra_eq. cbn [done_first pending second].
+  assert (H : read_extra_r (S f) (mkReader (x :: bt) rs s) buf = IoDone (buf ++ [x], mkReader bt rs s)).
+  { rewrite read_extra_r_S. cbn [fill_buf buffered]. unfold consume. cbn [buffered rest sched].
+    rewrite skipn_cons, skipn_O. reflexivity. }
+  destruct dn; rewrite H; reflexivity.
+Qed.
+
+Lemma read_extra_pending_byte : forall f x t r buf,
+  read_extra (S f) (mkChain (x :: t) false r) buf = IoDone (buf ++ [x], mkChain t false r).
+Proof. intros. rewrite read_extra_eq. reflexivity. Qed.
+
+(* the same for the loop of read_bom while it still lacks bytes *)
+Lemma read_bom_interrupted : forall f rs s head, (length head < 3)%nat ->
+  read_bom (S f) (mkReader [] rs (Interrupted :: s)) head = read_bom f (mkReader [] rs s) head.
+Proof.
+  intros f rs s head L. rewrite read_bom_unfold, min_bom_len_3.
+  replace (length head <? 3)%nat with true by (symmetry; apply Nat.ltb_lt; exact L). reflexivity.
+Qed.
+
+Lemma read_bom_fail : forall f rs s head k, (length head < 3)%nat ->
+  read_bom (S f) (mkReader [] rs (Fail k :: s)) head = IoErr k.
+Proof.
+  intros f rs s head k L. rewrite read_bom_unfold, min_bom_len_3.
+  replace (length head <? 3)%nat with true by (symmetry; apply Nat.ltb_lt; exact L). reflexivity.
+Qed.
 
 End WithDecode.
 
